@@ -175,6 +175,9 @@ func (this *Dataset) Insert(ctx context.Context, id uuid.UUID, value math.Vector
 	if err := this.checkDimension(&value); err != nil {
 		return err
 	}
+	if err := metadata.Validate(); err != nil {
+		return err
+	}
 
 	partition := this.getPartitionForId(id)
 	if !partition.isOnNode(this.clusterConn.Id()) {
@@ -197,6 +200,9 @@ func (this *Dataset) Insert(ctx context.Context, id uuid.UUID, value math.Vector
 
 func (this *Dataset) Update(ctx context.Context, id uuid.UUID, value math.Vector, metadata index.Metadata) error {
 	if err := this.checkDimension(&value); err != nil {
+		return err
+	}
+	if err := metadata.Validate(); err != nil {
 		return err
 	}
 
@@ -248,6 +254,9 @@ func (this *Dataset) checkBatchItems(items []*pb.BatchItem, checkValues bool) er
 			return InvalidBatchItemErr
 		}
 		if _, err := uuid.FromBytes(item.GetId()); err != nil {
+			return err
+		}
+		if err := index.Metadata(item.GetMetadata()).Validate(); err != nil {
 			return err
 		}
 		if checkValues {
